@@ -1,6 +1,145 @@
-//! Access to the parser's token-plumbing op log (the `#[cfg(cairo_verif)]` hook in
-//! cairo-lang-parser).  Stub until the hook commit exists in /repo.
-pub fn start(_want: bool) {}
+//! The parser's token-plumbing op log (`#[cfg(cairo_verif)]` hook `cairo_lang_parser::verif_hook`,
+//! filled by parser.rs) turned into a Coq term for Syntax/Corr.v `check_oplog`.
+//!
+//! Log lines (one per event; `|o cw ltw npend npd nlook` = plumbing state when the op began):
+//!   T|snap                      take                       S tag|snap      skip_token
+//!   U n|snap                    skip_until skipped n       N w tw end tag|snap  skip_taken_node_with_offset
+//!   G Orig First Second a b|snap  unglue fired             D|snap          take_doc
+//!   M off|snap                  create_and_report_missing  E|snap          end of parse_syntax_file
+//!   A kind text lead trail nl nt  terminal built by add_trivia_to_terminal (hex texts)
+//!   X tag start end             diagnostic emitted by consume_pending_skipped_diagnostics
+//!   Z|snap                      final state
+use crate::coqfmt::{coq_str, tkind};
+
+pub fn start(want: bool) {
+    if want {
+        cairo_lang_parser::verif_hook::start();
+    }
+}
+
 pub fn finish() -> Option<String> {
-    None
+    cairo_lang_parser::verif_hook::finish().map(|lines| to_coq(&lines))
+}
+
+fn unhex(h: &str) -> String {
+    if h == "-" {
+        return String::new();
+    }
+    let bytes: Vec<u8> = (0..h.len() / 2).map(|i| u8::from_str_radix(&h[2 * i..2 * i + 2], 16).unwrap_or(b'?')).collect();
+    String::from_utf8_lossy(&bytes).to_string()
+}
+
+fn snap(s: &str) -> String {
+    let v: Vec<&str> = s.split_whitespace().collect();
+    format!("(mkSnap {})", v.join(" "))
+}
+
+struct Entry {
+    kind: String, // Coq term of rkind
+    pre: String,
+    obs: Option<String>,
+    diags: Vec<String>,
+    cmp_diags: bool,
+}
+
+/// Returns `(<list rop>, <final snap>)` or a term that fails to type-check when the log is malformed
+/// (a malformed log must not pass silently).
+pub fn to_coq(lines: &[String]) -> String {
+    let mut entries: Vec<Entry> = vec![];
+    let mut nodes: Vec<String> = vec![]; // pending N group
+    let mut nodes_pre = String::new();
+    let mut fin = String::from("MISSING_FINAL_SNAPSHOT");
+    let flush_nodes = |entries: &mut Vec<Entry>, nodes: &mut Vec<String>, pre: &str| {
+        if !nodes.is_empty() {
+            entries.push(Entry {
+                kind: format!("KOp (OSkipTakenNodes [{}])", nodes.join("; ")),
+                pre: pre.to_string(),
+                obs: None,
+                diags: vec![],
+                cmp_diags: false,
+            });
+            nodes.clear();
+        }
+    };
+    for line in lines {
+        let (head, sn) = match line.split_once('|') {
+            Some((h, s)) => (h.trim(), Some(snap(s))),
+            None => (line.trim(), None),
+        };
+        let f: Vec<&str> = head.split_whitespace().collect();
+        let Some(&tag) = f.first() else { continue };
+        if tag != "N" {
+            flush_nodes(&mut entries, &mut nodes, &nodes_pre);
+        }
+        let mut push = |kind: String, cmp: bool| {
+            entries.push(Entry { kind, pre: sn.clone().unwrap_or_else(|| "MISSING_SNAP".into()), obs: None, diags: vec![], cmp_diags: cmp })
+        };
+        match (tag, f.len()) {
+            ("T", 1) => push("KOp OTake".into(), true),
+            ("D", 1) => push("KOp OTakeDoc".into(), true),
+            ("E", 1) => push("KFinish".into(), true),
+            ("S", 2) => push(format!("KOp (OSkipToken {})", f[1]), false),
+            // the stop predicate is not observable: replay with "stop at EndOfFile" and the number
+            // of iterations the real loop made as fuel
+            ("U", 2) => push(format!("KOp (OSkipUntil {}%nat is_eof 0)", f[1]), false),
+            ("M", 2) => {
+                push("KOp (OMissing 0)".into(), true);
+                entries.last_mut().unwrap().diags.push(format!("(0, {}, {})", f[1], f[1]));
+            }
+            ("G", 6) => push(
+                format!(
+                    "KOp (OUnglue {} {} {} {} {})",
+                    tkind(f[1]),
+                    tkind(f[2]),
+                    tkind(f[3]),
+                    coq_str(&unhex(f[4])),
+                    coq_str(&unhex(f[5]))
+                ),
+                false,
+            ),
+            ("N", 5) => {
+                if nodes.is_empty() {
+                    nodes_pre = sn.clone().unwrap_or_default();
+                }
+                nodes.push(format!("({}, {}, {}, {})", f[1], f[2], f[3], f[4]));
+            }
+            ("A", 7) => {
+                if let Some(e) = entries.last_mut() {
+                    e.obs = Some(format!(
+                        "(mkObs {} {} {} {} {} {})",
+                        tkind(f[1]),
+                        coq_str(&unhex(f[2])),
+                        coq_str(&unhex(f[3])),
+                        coq_str(&unhex(f[4])),
+                        f[5],
+                        f[6]
+                    ));
+                }
+            }
+            ("X", 4) => {
+                if let Some(e) = entries.last_mut() {
+                    e.diags.push(format!("({}, {}, {})", f[1], f[2], f[3]));
+                }
+            }
+            ("Z", 1) => fin = sn.clone().unwrap_or_else(|| "MISSING_SNAP".into()),
+            _ => push(format!("MALFORMED_LOG_LINE_{}", tag), false),
+        }
+    }
+    flush_nodes(&mut entries, &mut nodes, &nodes_pre);
+    let v: Vec<String> = entries
+        .iter()
+        .map(|e| {
+            format!(
+                "mkR ({}) {} {} {}",
+                e.kind,
+                e.pre,
+                match &e.obs {
+                    Some(o) => format!("(Some {o})"),
+                    None => "None".into(),
+                },
+                if e.cmp_diags { format!("(Some [{}])", e.diags.join("; ")) } else { "None".into() }
+            )
+        })
+        .collect();
+    format!("[{}],\n  {}", v.join(";\n   "), fin)
 }
